@@ -70,7 +70,8 @@ def main(argv):
         bad = 0
         for _ in range(n):
             try:
-                out = mod.SPEC.run_case(rp["case"], "replay")
+                spec = mod.spec_for(rp["case"]) if hasattr(mod, "spec_for") else mod.SPEC
+                out = spec.run_case(rp["case"], "replay")
             except runner.Inconclusive as e:
                 print("inconclusive:", e)
                 return 2
